@@ -38,6 +38,7 @@ __all__ = [
     "WorkQueueTerminationEvent",
     "WorkResult",
     "WorkTask",
+    "cancel_work",
 ]
 
 _UNSET: Any = object()
@@ -108,6 +109,39 @@ class Work(NamedTuple):
     groups: Sequence[Group] = ()
     tasks: Sequence[WorkTask] = ()
     streams: Sequence[Stream] = ()
+
+
+def cancel_work(
+    work: Work | None,
+    reason: BaseException | None,
+    cancel_awaitables: list[Awaitable[Any]],
+) -> None:
+    """Cancel work that has been produced, but is not known to a work queue.
+
+    Aborts the computations of the tasks (looking into the results of tasks
+    that were executed early and have completed already) and the queues of
+    the streams, collecting the awaitables of the asynchronous cleanup.
+    """
+    if not work:
+        return
+    for task in work.tasks:
+        computation = task.computation
+        pending_future = computation.pending_future
+        abort_result = computation.abort(reason)
+        if is_awaitable(abort_result):
+            cancel_awaitables.append(abort_result)
+        if pending_future is not None:
+            cancel_awaitables.append(pending_future)
+        try:
+            result = computation.result()
+        except BaseException:  # noqa: BLE001, S112
+            continue
+        if isinstance(result, WorkResult):
+            cancel_work(result.work, reason, cancel_awaitables)
+    for stream in work.streams:
+        abort_result = stream.queue.abort(reason)
+        if is_awaitable(abort_result):
+            cancel_awaitables.append(abort_result)
 
 
 # internal graph events
